@@ -29,14 +29,18 @@ ASSUMPTIONS = ["user functions deterministic"]
 
 
 def registry():
-    from contracts import lazy
-    return {**{c.short: c for c in lazy.ALL}, **{c.name: c for c in lazy.ALL}}
+    from contracts import lazy, misc, pipeline_call
+    allc = lazy.ALL + pipeline_call.ALL + misc.ALL
+    return {**{c.short: c for c in allc}, **{c.name: c for c in allc}}
 
 
 def proof_items():
     from contracts import lazy
     from vf.driver import ProofItem
+    from contracts import pipeline_call
     return [ProofItem(lazy.evaluate, gen=lazy.gen),
+            # in lazy mode every name of a tuple output gets its (deferred) entry, so that consumers share one node
+            ProofItem(pipeline_call.update_all_results, gen=pipeline_call.gen),
             ProofItem(lazy.evaluate_lazy, gen=lazy.el_gen, bounded_only=True,
                       why_bounded="recursion over dynamically typed containers (dict/tuple/list/set of anything)")]
 
